@@ -193,7 +193,13 @@ func init() {
 		}
 		exploreBare(c, allProps, d, depth, st, nil)
 	}
-	registry.Checks["C02"] = nodeCheck("C02", "C02", ruleNode+ruleBare+"the signer wrapper records every signed content (at most one distinct content per kind/height/round across restarts), and the round-store wrapper checks at the instant the mirror persists a vote of this validator that the action store already holds it; non-trivial = execution in which the validator signed something or a header was committed, distinct by final canonical state", false)
+	c02base := nodeCheck("C02base", "C02", ruleNode+ruleBare+"the signer wrapper records every signed content (at most one distinct content per kind/height/round across restarts), and the round-store wrapper checks at the instant the mirror persists a vote of this validator that the action store already holds it; non-trivial = execution in which the validator signed something or a header was committed, distinct by final canonical state", false)
+	registry.Checks["C02"] = func(c *vx.Ctx) {
+		// every crash point of the engine histories (incl. ones in which the validator proposes), with the strategy
+		// proposing again after the restart
+		crashEnum(c, []string{"C02"})
+		c02base(c)
+	}
 	registry.Checks["C08"] = nodeCheck("C08", "C08", ruleNode+ruleBare+"monitors: finalize only after a deliverable precommit majority for that block/round or a committed header; next height only after the finalization was stored; next round only with a nil quorum, full precommit presence, fired precommit delay or later-round minority; one Choose, no Consider/Choose after the prevote was chosen, one Decide and a Decide whenever one is due; positions strictly forward; calls and votes for the current round only, vote targets equal the strategy's answers; non-trivial as C02", false)
 	registry.Checks["C12"] = func(c *vx.Ctx) {
 		c12a(c)
